@@ -265,6 +265,25 @@ def run(ctx):
                           'args': [mode, incs, excs, res['witness'], singles_flags(mode, flags), bool(neg_all)]}],
                'assert': 'lhs == rhs'}
         common.confirm(ctx, rep)
+    # E2: the include-any / exclude-none wrapper logic with symbolic regex verdicts (CrossHair)
+    import os
+    from engine import xh
+    harness = os.path.join(common.VERIF, 'harness', 'xh_c07.py')
+    xres = xh.run_all(harness, 200 if ctx.quick else 600, ctx.workers)
+    for r in xres:
+        if r['name'].startswith('twin'):
+            if r['verdict'] != 'counterexample':
+                ctx.inconclusive.append({'why': 'reachability twin of xh_c07 was not refuted', 'out': r['output'][-200:]})
+        elif r['verdict'] == 'counterexample' and r['call']:
+            val = xh.eval_call(harness, r['call'])[2]
+            if val is False:
+                common.confirm(ctx, {'describe': f'C07 include/exclude evaluation law violated: {r["call"]}',
+                                     'steps': [{'as': 'ok', 'call': 'engine.replayfn.harness_call', 'args': ['xh_c07.py', r['call']]}], 'assert': 'ok == True'})
+            else:
+                ctx.inconclusive.append({'why': 'xh_c07 counterexample does not reproduce', 'call': r['call']})
+        elif r['verdict'] != 'confirmed':
+            ctx.inconclusive.append({'why': 'xh_c07 ' + r['verdict'], 'out': r['output'][-200:]})
+    ctx.coverage['crosshair_conditions'] = [{k: r[k] for k in ('name', 'verdict', 'time_s')} for r in xres]
     ctx.coverage.update({
         'evaluations': q['sat'] + q['unsat'] + q['unknown'],
         'distinct_nontrivial': len(distinct),
